@@ -47,6 +47,9 @@ DSL = {
     "cls_meta": (["AnyFrom", "]", "\\", "^", "-", "a"], ["]", "\\", "^-", "b"]),
     "neg_cls": (N("OneOrMore", ["AnyButFrom", "a", "\n", " "]), ["bcd", "a", "x y"]),
     "ci_group": (N("Group", ["lit", "abc"], True), ["ABC", "aBc", "ab"]),
+    "alt_anchor": (N("Either", N("MatchAtStart", ["lit", "id"]), ["lit", "#"]), ["id", "see #42", "#", "xid 7"]),
+    "alt_anchor_end": (N("Either", ["lit", "ab"], N("MatchAtEnd", ["lit", "z"])), ["z", "abz", "za", "ab z"]),
+    "alt_line": (N("Either", N("MatchAtLineStart", ["lit", "x"]), N("MatchAtLineEnd", ["lit", "y"]), ["lit", "q"]), ["x", "ay\nxb", "yq", "\nx"]),
     "ci_prefix": (["op", "+", N("Group", ["lit", "ab"], True), ["lit", "cd"]], ["ABcd", "abCD", "ABCD", "abcd"]),
     "ci_suffix": (["op", "+", ["lit", "Ab"], N("Group", N("Either", ["lit", "x"], ["lit", "yz"]), True)], ["AbX", "abx", "AbYZ", "Abyz"]),
     "exactly": (N("Exactly", D, 3), ["123", "12", "12345"]),
